@@ -96,6 +96,16 @@ Theorem C03_spec_evaluator_correct : forall P reads mb het p,
 Proof. exact spec_evaluator_correct. Qed.
 Print Assumptions C03_spec_evaluator_correct.
 
+(* components_ok / ids_ok (the L1 checks run on the implementation's outputs) read the minima off a
+   table computed once per case; its entries are exactly those leftmost members. *)
+Theorem C03_spec_table_correct : forall P reads mb het p,
+  (forall m, mb = Some m -> forall x, In x m -> In x P) -> In p P ->
+  let c := tget (spec_table P reads mb het) p in
+  clos_refl_sym_trans nat (linked P reads mb het) p c /\
+  forall q, clos_refl_sym_trans nat (linked P reads mb het) p q -> c <= q.
+Proof. exact spec_table_correct. Qed.
+Print Assumptions C03_spec_table_correct.
+
 (* ---- non-vacuity ---------------------------------------------------------------------------- *)
 
 (* interleaved components: reads over {0,2,4} and {1,3}; a nested read {5,6} inside nothing; position 7
